@@ -399,7 +399,11 @@ func readBack(root *ggql.Root) map[string]interface{} {
 		if _, isSchema := t.(*ggql.Schema); isSchema {
 			continue // the schema block is observed through the operation roots
 		}
-		m := emptyDef(string(ggql.Locate(t)), t.Description())
+		kind := string(ggql.Locate(t))
+		if _, built := t.(*builtScalar); built { // (ggql.Locate knows its own scalar types only)
+			kind = "SCALAR"
+		}
+		m := emptyDef(kind, t.Description())
 		m["dirs"] = uses(t.Directives(), dd)
 		switch tt := t.(type) {
 		case *ggql.Object:
